@@ -221,8 +221,8 @@ def make_tasks(run: Run, tier: str, variant: dict) -> list[dict]:
     for g, c, f in zip(grammars, comp, fz):
         eps = bool(c["epscycle"])
         if eps:
-            # the forest of such a grammar is infinite (C06's finding): a few are kept, the trees they yield before the
-            # cut are judged like any other
+            # a grammar with a same-span self-derivation: its forest is finite under the covering cut of `complete`, but
+            # the chart can be huge (C06: finite explosions) — a few are kept, with a short wall-clock cap
             n_eps += 1
             if n_eps > (12 if quick else 80):
                 run.count("gen:epscycle_skipped")
@@ -261,7 +261,7 @@ def make_tasks(run: Run, tier: str, variant: dict) -> list[dict]:
                     continue
                 seen.add(key)
                 tasks.append({"id": len(tasks), "spec": g["spec"], "start": start, "word": eio.word_json(w),
-                              "cap_s": 2.0 if eps else cap_s, "max_trees": 12 if eps else 200, "modes": False,
+                              "cap_s": 3.0 if eps else cap_s, "max_trees": 200, "modes": False,
                               "eps_pre": eps, "mode": g["mode"],
                               "tags": sorted(g["tags"]) + [g["origin"], "in:" + worigin.split(":")[0], "mode:" + g["mode"],
                                                            "start:" + ("<start>" if start == "<start>" else "other")]})
@@ -326,6 +326,11 @@ def grammar_phase(run: Run, tier: str, corr: list, variant: dict) -> None:
     run.coverage["variant"] = variant
     tasks = make_tasks(run, tier, variant)
     reals = eio.run_pool(tasks, workers=14, backstop_s=120.0)
+    # (0) the compiled helper-rule tables (the prediction order the model is given only orders alternatives)
+    bad_tables, n_tables = eio.compile_corr(tasks, reals, variant["cap"])
+    corr.extend(bad_tables)
+    run.count("corr:compiled_tables_compared", n_tables)
+    run.count("corr:compiled_tables_equal", n_tables - len(bad_tables))
     # (a) the verified checker on every real tree
     vreqs, vwhere = [], []
     for i, (t, r) in enumerate(zip(tasks, reals)):
@@ -340,7 +345,7 @@ def grammar_phase(run: Run, tier: str, corr: list, variant: dict) -> None:
     # (d) the model parser on the same case
     mreqs, mwhere = [], []
     for i, (t, r) in enumerate(zip(tasks, reals)):
-        if "grammar" not in r or t.get("eps_pre"):
+        if "grammar" not in r:
             continue
         st = r["status"]
         if st == "ok" or st == "exc:IndexError":
